@@ -1128,3 +1128,63 @@ def _wrap_split_collect():
 
 
 _wrap_split_collect()
+
+
+# ------------------------------------------------------------------ the `?` operator
+@model(r'^<(Result|Option)<.*> as (std::ops::)?Try>::branch$')
+def m_try_branch(ex, st, c):
+    v = D(ex, st, c.args[0])
+    if not isinstance(v, Enum): raise Unsupported('Try::branch on %r' % (v,))
+    if v.variant in ('Ok', 'Some'): return Enum('ControlFlow', 'Continue', (v.fields[0],))
+    return Enum('ControlFlow', 'Break', (v,))       # the residual keeps the Err / None
+
+
+@model(r'^<(Result|Option)<.*> as (std::ops::)?FromResidual<.*>>::from_residual$')
+def m_from_residual(ex, st, c):
+    r = D(ex, st, c.args[0])
+    if c.callee.startswith('<Option<'): return NONE          # the residual of an Option is always None (a constant operand)
+    if not isinstance(r, Enum): raise Unsupported('from_residual of %r' % (r,))
+    if r.variant == 'None': return NONE
+    if r.variant != 'Err': raise Unsupported('from_residual of %r' % (r.variant,))
+    mm = re.match(r'^<Result<(.*)> as (?:std::ops::)?FromResidual<Result<(?:std::convert::)?Infallible, (.*)>>>::from_residual$', c.callee)
+    if mm:
+        parts = MD._gen_args('x::<' + mm.group(1) + '>')
+        dst = parts[-1].strip() if parts else ''
+        src = mm.group(2).strip()
+        if dst != src:
+            conv = '<%s as From<%s>>::from' % (dst, src)
+            fn = ex.find_model(conv)
+            if fn is not None:
+                return CallFn(FnItem(conv), [r.fields[0]], lambda e_, s_, x: Err(x)) if False else Err(fn(ex, st, Call(conv, [r.fields[0]], None, c.fr)))
+            tgt = ex.prog.get(conv, c.fr.fn.crate) if hasattr(ex, 'prog') else None
+            if tgt is None: raise Unsupported('error conversion %s in `?`' % conv)
+            return CallFn(tgt, [r.fields[0]], lambda e_, s_, x: Err(x))
+    return Err(r.fields[0])
+
+
+@model(r'^core::bool::<impl bool>::(then|then_some)$')
+def m_bool_then(ex, st, c):
+    b = D(ex, st, c.args[0])
+    lazy = strip_generics(c.callee).endswith('::then')
+    if lazy:
+        yes = lambda: CallFn(c.args[1], [], lambda e_, s_, r: Some(r))
+    else:
+        yes = lambda: Some(c.args[1])
+    return _branch(b, yes, lambda: NONE)
+
+
+def _wrap_when_adapt(name, generic):
+    old = getattr(MD, name)
+
+    def wrapped(ex, st, c):
+        it = D(ex, st, c.args[0])
+        if is_adapt(it): return generic(ex, st, c)
+        return old(ex, st, c)
+    for i, (pat, fn) in enumerate(MD.REGISTRY):
+        if fn is old: MD.REGISTRY[i] = (pat, wrapped)
+    setattr(MD, name, wrapped)
+
+
+_wrap_when_adapt('m_enum_next', m_g_next)
+_wrap_when_adapt('m_iter_next', m_g_next)
+_wrap_when_adapt('m_split_next', m_g_next)
